@@ -144,6 +144,9 @@ type Prop struct {
 	// 30 further simulated seconds a violation of that class (properties that
 	// say nothing waits forever); otherwise such runs are only counted.
 	LeakClass string
+	// RaceClass, if set, turns on the lock-discipline checker for shared maps
+	// (race.go); a report is a violation of that class.
+	RaceClass string
 }
 
 var registry = map[string]*Prop{}
@@ -261,9 +264,15 @@ func RunPlan(t *testing.T, p *Plan, keepLog bool) (res *Result) {
 			mrand.Seed(p.Seed)
 			s := NewSched(cfg)
 			c = &Ctx{Plan: p, S: s, Dir: dir, T: t, probes: map[string]int{}}
+			if prop.RaceClass != "" {
+				s.EnableRaceCheck()
+			}
 			Install(s)
 			defer Install(nil)
 			prop.Exec(c)
+			if rs := s.Races(); len(rs) > 0 && !c.Stopped() {
+				c.Fail(prop.RaceClass, "%s", rs[0])
+			}
 			res.Leaked = s.Drain(30 * time.Second)
 			if len(res.Leaked) > 0 && prop.LeakClass != "" && !c.Stopped() {
 				c.Fail(prop.LeakClass, "still blocked after shutdown: %s", strings.Join(res.Leaked, "; "))
